@@ -568,19 +568,19 @@ func oracles09(r *Run, t *c09Tree, flat []flat09, bo build09) {
 			r.Count("oracle", "cluster_untouched")
 			if hadIn != hasOut || nsIn != nsOut {
 				report("cluster_untouched", "C09/cluster_untouched",
-					fmt.Sprintf("cluster-scoped %s %s: metadata.namespace %c08q(present=%v) -> %c08q(present=%v)", kind, name, nsIn, hadIn, nsOut, hasOut))
+					fmt.Sprintf("cluster-scoped %s %s: metadata.namespace %q(present=%v) -> %q(present=%v)", kind, name, nsIn, hadIn, nsOut, hasOut))
 			}
 		} else if want != "" {
 			r.Count("oracle", "moved")
 			if !hasOut || nsOut != want {
 				report("moved", "C09/moved",
-					fmt.Sprintf("namespaced %s %s: namespace %c08q, outermost directive %c08q", kind, name, nsOut, want))
+					fmt.Sprintf("namespaced %s %s: namespace %q, outermost directive %q", kind, name, nsOut, want))
 			}
 		} else {
 			r.Count("oracle", "no_directive")
 			if hadIn != hasOut || nsIn != nsOut {
 				report("moved", "C09/changed-without-directive",
-					fmt.Sprintf("%s %s: namespace changed from %c08q to %c08q without any directive on its chain", kind, name, nsIn, nsOut))
+					fmt.Sprintf("%s %s: namespace changed from %q to %q without any directive on its chain", kind, name, nsIn, nsOut))
 			}
 		}
 		id := idt{av, kind, name, effNs(nsOut, cluster)}
@@ -651,7 +651,7 @@ func oracles09(r *Run, t *c09Tree, flat []flat09, bo build09) {
 					cls = "C09/subjects/non-default-account"
 				}
 				report("subjects", cls,
-					fmt.Sprintf("%s %s subject %d (ServiceAccount %s): namespace %c08q, the account is in %c08q", fr.Res.Kind, fr.Res.Name, j, nm, gotNs, wantNs))
+					fmt.Sprintf("%s %s subject %d (ServiceAccount %s): namespace %q, the account is in %q", fr.Res.Kind, fr.Res.Name, j, nm, gotNs, wantNs))
 			}
 		}
 	}
@@ -967,7 +967,7 @@ func replayC09(path string) (bool, string, error) {
 	}
 	if wrap.Filter != nil {
 		cls, doc, msg := execFilter09(*wrap.Filter)
-		return cls == ClsPanic, fmt.Sprintf("class=%s msg=%c08q after=%s", cls, msg, docString(doc)), nil
+		return cls == ClsPanic, fmt.Sprintf("class=%s msg=%q after=%s", cls, msg, docString(doc)), nil
 	}
 	if t == nil {
 		return false, "", fmt.Errorf("replay file has neither a build tree nor a filter case")
@@ -978,7 +978,7 @@ func replayC09(path string) (bool, string, error) {
 	bo := runBuild09(t)
 	oracles09(r, t, flat, bo)
 	var b strings.Builder
-	fmt.Fprintf(&b, "class=%s msg=%c08q\n", bo.cls, bo.msg)
+	fmt.Fprintf(&b, "class=%s msg=%q\n", bo.cls, bo.msg)
 	for _, o := range bo.outs {
 		s, _ := o.String()
 		fmt.Fprintf(&b, "---\n%s", s)
